@@ -386,3 +386,58 @@ fn finish<K>(code: u8) -> u32 where Dec2: Page<K> { <Dec2 as Page<K>>::resolve(c
 fn finish_dyn<K>(d: &dyn PageD<K>, code: u8) -> u32 { d.via(code) }
 pub fn p_trait_args(x: u8, y: u8) -> u32 { match y % 3 { 0 => finish::<Strict>(x), 1 => finish::<Lenient>(x), _ => finish::<Mid>(x) } }
 pub fn p_trait_args_dyn(x: u8, y: u8) -> u32 { if y & 1 == 0 { finish_dyn::<Lenient>(&Dec2, x) } else { finish_dyn::<Mid>(&Dec2, x) } }
+
+// ---- tenth batch: idioms from "modern Rust" / performance / state-machine PRs
+const fn build_parity() -> [bool; 256] { let mut t = [false; 256]; let mut i = 0usize; while i < 256 { t[i] = (i as u8).count_ones() % 2 == 0; i += 1; } t }
+const YPARITY: [bool; 256] = build_parity();
+static YSQUARES: [u16; 16] = { let mut t = [0u16; 16]; let mut i = 0; while i < 16 { t[i] = (i * i) as u16; i += 1; } t };
+#[derive(Clone, Copy, PartialEq, Debug, Default)]
+enum Yst { #[default] Idle, Ext { release: bool }, Rel, Pause(u8) }
+fn ystep(s: Yst, b: u8) -> (Yst, Option<u8>) {
+    match (s, b) {
+        (Yst::Idle, 0xE0) => (Yst::Ext { release: false }, None),
+        (Yst::Idle, 0xF0) => (Yst::Rel, None),
+        (Yst::Idle, 0xE1) => (Yst::Pause(0), None),
+        (Yst::Idle, c @ 0x01..=0x7F) => (Yst::Idle, Some(c)),
+        (Yst::Ext { release: false }, 0xF0) => (Yst::Ext { release: true }, None),
+        (Yst::Ext { release }, c) => (Yst::Idle, Some(if release { c | 0x80 } else { c.wrapping_add(1) })),
+        (Yst::Rel, c) => (Yst::Idle, Some(c | 0x80)),
+        (Yst::Pause(n @ 0..=1), _) => (Yst::Pause(n + 1), None),
+        (Yst::Pause(_), c) => (Yst::Idle, Some(c ^ 0x55)),
+        (Yst::Idle, _) => (Yst::Idle, None),
+    }
+}
+struct Ymach { s: Yst }
+impl Ymach { fn feed(&mut self, b: u8) -> Option<u8> { let (n, o) = ystep(core::mem::take(&mut self.s), b); self.s = n; o } }
+pub fn y_const_tables(x: u8, y: u8) -> u32 { (YPARITY[x as usize] as u32) | (YSQUARES[(y & 15) as usize] as u32) << 1 | (YPARITY[(x ^ y) as usize] as u32) << 20 }
+pub fn y_step_tuple(x: u8, y: u8) -> u32 { let mut m = Ymach { s: Yst::default() }; let a = m.feed(x); let b = m.feed(y); let c = m.feed(0x1C); a.map_or(0x100, u32::from) | b.map_or(0x100, u32::from) << 9 | c.map_or(0x100, u32::from) << 18 | ((m.s == Yst::Idle) as u32) << 27 }
+pub fn y_is_some_and(x: u8, y: u8) -> u32 { let a = x.checked_sub(100); let r: Result<u8, u8> = if y & 1 == 0 { Ok(y) } else { Err(y) }; (a.is_some_and(|v| v > 50) as u32) | (a.is_none_or(|v| v < 10) as u32) << 1 | (r.is_ok_and(|v| v > 99) as u32) << 2 | (r.is_err_and(|e| e > 99) as u32) << 3 }
+pub fn y_labeled_value(x: u8, y: u8) -> u32 { let r = 'outer: { if x < 10 { break 'outer 1u32; } for i in 0..4u8 { if y >> i & 1 == 1 { break 'outer 10 + i as u32; } } 99 }; r + 'l: loop { let mut k = x; loop { if k < 7 { break 'l k as u32 * 1000; } k /= 2; } } }
+pub fn y_windows_chunks(x: u8, y: u8) -> u32 { let a = [x, y, x ^ y, x & y, x | y, 7]; a.windows(2).filter(|w| w[0] < w[1]).count() as u32 + a.chunks(4).map(|c| c.len() as u32 * c[0] as u32).sum::<u32>() * 16 + a.chunks_exact(2).map(|c| (c[0] ^ c[1]) as u32).fold(0, |s, v| s ^ v) * 0x10000 }
+pub fn y_scan_take_while(x: u8, y: u8) -> u32 { let a = [x & 15, y & 15, 3, 9, 1]; a.iter().scan(0u8, |acc, v| { *acc = acc.wrapping_add(*v); Some(*acc) }).take_while(|s| *s < 20).count() as u32 + a.iter().skip_while(|v| **v < 8).map(|v| *v as u32).sum::<u32>() * 8 + a.iter().map_while(|v| v.checked_sub(1)).count() as u32 * 1024 }
+pub fn y_find_map_fold(x: u8, y: u8) -> u32 { const ROWS: [(u8, u8, u8); 4] = [(1, b'a', b'A'), (2, b'b', b'B'), (9, b'z', b'Z'), (12, b'-', b'_')]; ROWS.iter().find_map(|&(k, lo, up)| (k == x & 15).then_some(if y & 1 == 1 { up } else { lo })).map_or(0, u32::from) + ROWS.iter().rev().fold(0u32, |a, r| a * 3 + (r.0 > y & 15) as u32) * 256 + ROWS.iter().rposition(|r| r.0 <= x & 15).map_or(9, |p| p as u32) * 0x10000 }
+pub fn y_or_patterns(x: u8, y: u8) -> u32 { let t = (x >> 6, y & 3); (match t { (0 | 1, 0) | (3, 1 | 2) => 1, (a @ (1 | 2), b @ 1..=2) => 10 + a as u32 * 4 + b as u32, (_, 3) => 100, (a, _) if a == 3 => 200, _ => 300 }) + match x { n @ (b'a'..=b'z' | b'A'..=b'Z') => n as u32 & 0x1F, b'0'..b':' => 50, _ => 60 } * 1000 }
+pub fn y_char_arith(x: u8, y: u8) -> u32 { let n = x % 26; let c = (b'a' + n) as char; let u = c.to_ascii_uppercase(); let d = char::from_digit((y % 36) as u32, 36).unwrap_or('?'); let k = char::from_u32(0x40 + (n as u32 + 1)).map_or(0, |c| c as u32); u as u32 | (d as u32) << 8 | k << 16 | (c.is_ascii_lowercase() as u32) << 24 | (((u as u8) - 0x40) as u32) << 25 }
+pub fn y_mem_replace(x: u8, y: u8) -> u32 { let mut s = Yst::Pause(x & 3); let old = core::mem::replace(&mut s, Yst::Ext { release: y & 1 == 1 }); let mut o = Some(y); let t = o.take(); let r = o.replace(x); let g = o.get_or_insert(5); *g = g.wrapping_add(1); (old == Yst::Pause(1)) as u32 | (matches!(s, Yst::Ext { release: true }) as u32) << 1 | t.map_or(0, u32::from) << 2 | (r.is_none() as u32) << 10 | o.map_or(0, u32::from) << 11 }
+pub fn y_bit_tricks(x: u8, y: u8) -> u32 { let mut p = x; p ^= p >> 4; p ^= p >> 2; p ^= p >> 1; let even = p & 1 == 0; let mask = 0u8.wrapping_sub((y & 1 == 1) as u8); let sel = (x & mask) | (y & !mask); let low = x & x.wrapping_neg(); let pow2 = x != 0 && x & (x - 1) == 0; even as u32 | (sel as u32) << 1 | (low as u32) << 9 | (pow2 as u32) << 17 | (x.is_power_of_two() as u32) << 18 | ((x as u32 + y as u32 + 1) >> 1) << 19 }
+struct Ybits(u16);
+impl Ybits { const SHIFT: u16 = 1; const CAPS: u16 = 1 << 3; const fn get(&self, m: u16) -> bool { self.0 & m != 0 } fn set(&mut self, m: u16, on: bool) { if on { self.0 |= m } else { self.0 &= !m } } fn toggle(&mut self, m: u16) { self.0 ^= m } }
+pub fn y_packed_flags(x: u8, y: u8) -> u32 { let mut b = Ybits(x as u16); b.set(Ybits::SHIFT, y & 1 == 1); if y & 2 == 2 { b.toggle(Ybits::CAPS); } (b.get(Ybits::SHIFT) ^ b.get(Ybits::CAPS)) as u32 | (b.0 as u32) << 1 }
+fn yopt_chain(x: u8, y: u8) -> Option<u32> { let a = x.checked_add(y)?; let b = a.checked_mul(2)?; let Some(c) = b.checked_sub(7) else { return Some(1); }; Some(c as u32 + 10) }
+pub fn y_option_q(x: u8, y: u8) -> u32 { yopt_chain(x, y).unwrap_or(0) }
+#[derive(Clone, Copy, PartialEq, Debug)] enum Ypfx { None = 0, E0 = 1, E1 = 2 }
+impl TryFrom<u8> for Ypfx { type Error = u8; fn try_from(v: u8) -> Result<Self, u8> { Ok(match v { 0 => Ypfx::None, 0xE0 => Ypfx::E0, 0xE1 => Ypfx::E1, o => return Err(o) }) } }
+impl From<Ypfx> for u8 { fn from(p: Ypfx) -> u8 { match p { Ypfx::None => 0, Ypfx::E0 => 0xE0, Ypfx::E1 => 0xE1 } } }
+pub fn y_tryfrom_enum(x: u8, y: u8) -> u32 { let p = Ypfx::try_from(x); let q: Result<Ypfx, _> = y.try_into(); match (p, q) { (Ok(a), Ok(b)) => u8::from(a) as u32 + (b as u32) * 256, (Ok(a), Err(e)) => 0x10000 + a as u32 + e as u32 * 4, (Err(e), _) => 0x20000 + e as u32 } }
+trait SetSpec { const EXT: u8; const REL_BIT: bool; fn lookup(c: u8) -> Option<u8>; }
+struct Sp1; struct Sp2;
+impl SetSpec for Sp1 { const EXT: u8 = 0xE0; const REL_BIT: bool = true; fn lookup(c: u8) -> Option<u8> { (c < 0x59).then_some(c + 1) } }
+impl SetSpec for Sp2 { const EXT: u8 = 0xE0; const REL_BIT: bool = false; fn lookup(c: u8) -> Option<u8> { (c != 0x02 && c < 0x84).then(|| c ^ 0x40) } }
+fn generic_decode<S: SetSpec>(b: u8) -> u32 { if b == S::EXT { return 0x1000; } let (rel, code) = if S::REL_BIT { (b & 0x80 != 0, b & 0x7F) } else { (false, b) }; S::lookup(code).map_or(0x2000, |k| k as u32 | (rel as u32) << 8) }
+pub fn y_generic_spec(x: u8, y: u8) -> u32 { if y & 1 == 0 { generic_decode::<Sp1>(x) } else { generic_decode::<Sp2>(x) } }
+struct Yrow { code: u8, base: char, shifted: char, altgr: Option<char> }
+const LROWS: [Yrow; 4] = [Yrow { code: 1, base: 'q', shifted: 'Q', altgr: Some('@') }, Yrow { code: 2, base: '2', shifted: '"', altgr: None }, Yrow { code: 3, base: 'e', shifted: 'E', altgr: Some('\u{20AC}') }, Yrow { code: 4, base: '<', shifted: '>', altgr: Some('|') }];
+pub fn y_layout_rows(x: u8, y: u8) -> u32 { let shift = y & 1 == 1; let altgr = y & 2 == 2; match LROWS.iter().find(|r| r.code == x & 7) { Some(r) => { let c = if altgr { r.altgr.unwrap_or(r.base) } else if shift { r.shifted } else { r.base }; c as u32 } None => 0 } }
+macro_rules! arms { ($v:expr, $sh:expr; $($k:literal => $lo:literal $up:literal),*) => { match $v { $($k => if $sh { $up } else { $lo },)* _ => '\0' } } }
+pub fn y_macro_arms(x: u8, y: u8) -> u32 { arms!(x & 7, y & 1 == 1; 0 => 'a' 'A', 1 => 'b' 'B', 2 => '1' '!', 5 => ';' ':') as u32 }
+pub fn y_bool_then_chain(x: u8, y: u8) -> u32 { (x > 200).then_some(1u32).or((y > 200).then_some(2)).or_else(|| (x == y).then(|| 3)).map(|v| v * 10).unwrap_or_default() + Some(x).filter(|v| v % 3 == 0).zip(Some(y).filter(|v| v % 5 == 0)).map_or(0, |(a, b)| (a as u32 + b as u32) * 100) }
